@@ -130,6 +130,7 @@ func slotSpecsFor(meta *pool.Meta) []SlotSpec {
 			providers[k] = append(providers[k], mkReg(l, godi.Scoped, opts...))
 		}
 	}
+	var memberLife func(k, x int) (godi.Lifetime, bool) // optional per-member override
 	assemble := func(consumerLife godi.Lifetime, lifeOf func(k int) godi.Lifetime, skip int, replace map[int][]Reg) *Spec {
 		s := &Spec{}
 		for k := range idents {
@@ -140,8 +141,13 @@ func slotSpecsFor(meta *pool.Meta) []SlotSpec {
 			if r, ok := replace[k]; ok {
 				regs = r
 			}
-			for _, r := range regs {
+			for x, r := range regs {
 				r.Life = lifeOf(k)
+				if memberLife != nil {
+					if l, ok := memberLife(k, x); ok {
+						r.Life = l
+					}
+				}
 				s.Regs = append(s.Regs, r)
 			}
 		}
@@ -188,6 +194,28 @@ func slotSpecsFor(meta *pool.Meta) []SlotSpec {
 				}
 				return godi.Singleton
 			}, -1, nil), "captive", j)
+		}
+		// a group with members of different lifetimes: one scoped member next to a transient or
+		// singleton one, in both orders, is captive all the same
+		if idents[k].Group != "" && len(providers[k]) >= 2 {
+			for _, cl := range []godi.Lifetime{godi.Singleton, godi.Transient} {
+				for _, other := range []godi.Lifetime{godi.Transient, godi.Singleton} {
+					for pos := 0; pos < 2; pos++ {
+						kk, pp, oo := k, pos, other
+						memberLife = func(k2, x int) (godi.Lifetime, bool) {
+							if k2 != kk {
+								return 0, false
+							}
+							if x == pp {
+								return godi.Scoped, true
+							}
+							return oo, true
+						}
+						add(assemble(cl, func(int) godi.Lifetime { return godi.Singleton }, -1, nil), "captive", j)
+						memberLife = nil
+					}
+				}
+			}
 		}
 		for _, l := range []godi.Lifetime{godi.Scoped, godi.Singleton} {
 			l := l
